@@ -20,6 +20,9 @@ VARIANT_FN = {"LRUTrie": None, "CanonicalizedLRUTrie": "canonicalize_url", "Norm
               "FingerprintedLRUTrie": "fingerprint_url"}
 
 
+RAW_STEMS = [[], ["p:"], ["s:http"], ["s:http", "h:com", "p:", "h:a"]]
+
+
 def clean(st):
     return tuple(s for s in st if s != "p:")
 
@@ -41,6 +44,9 @@ class Spec(hist.Spec):
             v += 1
             self.ops.append(["set", u, v])  # same URL again, other value
         if with_lru:
+            for raw in RAW_STEMS:
+                v += 1
+                self.ops.append(["set_lru_raw", raw, v])
             for u in urls[:4]:
                 v += 1
                 self.ops.append(["set_lru_str", u, v])
@@ -53,7 +59,8 @@ class Spec(hist.Spec):
     def warm(self):
         """compute every reference key once, before workers are forked"""
         for (op, u, v) in self.ops:
-            self.key(u)
+            if op != "set_lru_raw":
+                self.key(u)
         self._qc = []
         for q in self.qurls:
             st = refstems.stems(q, self.sa, psl())
@@ -90,6 +97,8 @@ class Spec(hist.Spec):
         for (op, u, v) in ops:
             if op == "set":
                 t.set(u, v)
+            elif op == "set_lru_raw":
+                t.set_lru(list(u), v)
             elif op == "set_lru_str":
                 t.set_lru(refstems.serialize(refstems.stems(u, self.sa, psl())), v)
             else:
@@ -99,7 +108,10 @@ class Spec(hist.Spec):
     def ref_ops(self, ops):
         d = {}
         for (op, u, v) in ops:
-            d[self.key(u) if op == "set" else self.lru_key(u)] = v
+            if op == "set_lru_raw":
+                d[clean(u)] = v
+            else:
+                d[self.key(u) if op == "set" else self.lru_key(u)] = v
         return d
 
     def ref_key(self, d):
@@ -126,6 +138,8 @@ class Spec(hist.Spec):
         cmp(PROP + ".iter", ["iter"], sorted(d.values()), core.call(lambda: sorted(t)))
         if self._qc is None:
             self.warm()
+        for raw in RAW_STEMS:
+            cmp(PROP + ".match_lru", ["match_lru_raw", raw], longest(clean(raw)), core.call(t.match_lru, list(raw)))
         for q, kq, lk, st, ser in self._qc:
             cmp(PROP + ".match", ["match", q], longest(kq), core.call(t.match, q))
             exp = longest(lk)
